@@ -115,6 +115,18 @@ func main() {
 		if c.Trusted {
 			o.Trusted = append(o.Trusted, n+" ["+c.TrustedWhy+"]")
 		}
+		if c.Trusted && !c.Lib && c.Sig != nil && len(c.Extra["body_ensures"]) > 0 && !*locks {
+			// a contract trusted at call sites (its ghost-state clauses speak about another goroutine)
+			// whose body is still checked against the clauses that are about this activation alone
+			if fn := eng.allFuncs[n]; fn != nil && sel(n, c.Props) {
+				bc := &Contract{Name: c.Name, ParamNames: c.ParamNames, Results: c.Results, Requires: append(append([]*Clause(nil), c.Requires...), c.Extra["body_requires"]...),
+					Ensures: c.Extra["body_ensures"], Holds: c.Holds, Extra: c.Extra, Loops: c.Loops, Pkg: c.Pkg, Sig: c.Sig, Props: c.Props, File: c.File, Line: c.Line,
+					HasAssigns: true, Assigns: []*AssignTarget{{Kind: "everything"}}}
+				done[n] = true
+				o.Functions = append(o.Functions, eng.verifyFunction(fn, bc))
+			}
+			continue
+		}
 		if c.Lib || c.Trusted || c.Sig == nil || c.Inline {
 			continue
 		}
